@@ -27,7 +27,7 @@ ASSUMPTIONS = [
     "set/set default with a symbol value on numeric targets and empty forced strings are not generated (undocumented)",
     "reads are taken after Kconfig._invalidate_all(): caching is property C03's subject",
 ]
-BUDGET = {"quick": {"examples": 4000}, "thorough": {"examples": 300000, "deadline_s": 1500}}
+BUDGET = {"quick": {"examples": 4000}, "thorough": {"examples": 300000, "deadline_s": 900}}
 
 CFG = gen.cfg(max_syms=16, p_multi_def=12, p_menu=30, p_menu_vis=55, p_bare=6)
 
